@@ -323,7 +323,7 @@ def check_sc(crate, rep, cfg):
     vm = crate.one("vm::interpreter::VirtualMachine::<'tera>::interpret")
     vef = EdgeFacts(vm, crate)
     vtr = Tracer(vm)
-    ips = set(vm.locals_named("ip"))
+    ips = ip_locals(vm)
     want = {"PopJumpIfFalse": False, "JumpIfFalseOrPop": False, "JumpIfTrueOrPop": True}
     got = {}
     for bb, idx, s in vm.stmts():
@@ -343,3 +343,16 @@ def check_sc(crate, rep, cfg):
         ok = got.get(v) == w
         rep.add("C02.SC", "C02.SC:vm:%s" % v, ok, vm.where(0), "the VM arm of %s jumps when the tested value is %s" % (v, "truthy" if w else "falsy")
                 + ("" if ok else " — VIOLATED: jumps on %s" % got.get(v)))
+
+
+def ip_locals(vm):
+    """the instruction pointer: the local handed to Chunk::get in the dispatch loop (by shape, not by name)"""
+    out = set()
+    for bb, t in find_calls(vm, ["parsing::instructions::Chunk::get"]):
+        a = t["args"][1]
+        if a["k"] in ("copy", "move"):
+            out.add(a["pl"]["l"])
+            for (b2, i2, dp, rv) in vm.defs.get(a["pl"]["l"], []):
+                if rv["k"] == "use" and rv["op"]["k"] in ("copy", "move") and not rv["op"]["pl"]["p"]:
+                    out.add(rv["op"]["pl"]["l"])
+    return {l for l in out if vm.local_name(l)} or out
